@@ -286,6 +286,10 @@ def apply_contract(ev, q, c, vals, nodes, st, node, callee_mod, tag=None):
         old = env[p]
         post_env[p] = fresh(shape_of(old), p + "_post", facts, old.kind if isinstance(old, Seq) else "array")
     post_env["result"] = res
+    # the callee's ghost variables are existential witnesses of its postcondition (its own proof exhibits them): fresh symbols here
+    for gname, gsh in c.get("ghost_vars", {}).items():
+        if gname not in post_env:
+            post_env[gname] = fresh(parse_shape(gsh), q.split(".")[-1] + "." + gname, [], "array")
     st.pc.extend(facts)
     s3 = State(post_env, st.pc)
     saved = ctx.old_env
@@ -476,6 +480,12 @@ def sort_model(ev, recv, kw, st, node):
             lo_, hi_ = as_num(out.at(z3.IntVal(0))).t, as_num(out.at(z3.simplify(n - 1))).t
             st.pc.append(z3.Implies(inr, (lo_ >= e) if descending else (lo_ <= e)))
             st.pc.append(z3.Implies(inr, (hi_ <= e) if descending else (hi_ >= e)))
+    if keyf is None and recv.esh.kind in ("int", "real") and not descending:
+        # sorting an already sorted sequence changes nothing (the sorted arrangement of a multiset is unique)  [A]
+        a2, b2, k2 = z3.Int(fresh_name("a")), z3.Int(fresh_name("b")), z3.Int(fresh_name("k"))
+        already = z3.ForAll([a2, b2], z3.Implies(z3.And(a2 >= 0, a2 < b2, b2 < n), as_num(recv.at(a2)).t <= as_num(recv.at(b2)).t))
+        same = z3.ForAll([k2], z3.Implies(z3.And(k2 >= 0, k2 < n), as_num(out.at(k2)).t == as_num(recv.at(k2)).t))
+        st.pc.append(z3.Implies(already, same))
     # a permutation does not change the sum of any integer column (multiset invariance)  [A]
     for la, lb, lsh in zip(out.arrs, recv.arrs, flatten_shape(recv.esh)):
         if lsh.kind == "int":
@@ -836,6 +846,74 @@ def lib_arange(ev, args, kw, st, node):
         raise Unsupported("np.arange of a non-integer")
     ln = z3.If(n.t >= 0, n.t, z3.IntVal(0))
     return Seq.from_fn(z3.simplify(ln), INT, lambda k: Num(k))
+
+
+@lib("numpy.concatenate")
+def lib_concatenate(ev, args, kw, st, node):
+    """np.concatenate((a, b, ...)) of one-dimensional integer/real parts (arrays, lists, tuples).  An empty *list* part makes NumPy
+    return a float array with the same values; the model keeps the element values (callers follow with astype(int))."""
+    parts = args[0]
+    if not isinstance(parts, Tup) or kw:
+        raise Unsupported("np.concatenate of %r" % (parts,))
+    items = []
+    for p_ in parts.items:
+        if isinstance(p_, Seq) and p_.esh.kind in ("int", "real"):
+            items.append((p_.n, p_.esh.kind == "int", lambda k, p_=p_: as_num(p_.at(k))))
+        elif isinstance(p_, Tup) and all(isinstance(x, Num) for x in p_.items):
+            def at(k, xs=p_.items):
+                isint = all(x.is_int for x in xs)
+                t = None
+                for i in range(len(xs) - 1, -1, -1):
+                    v = xs[i].t if isint else xs[i].real()
+                    t = v if t is None else z3.If(k == i, v, t)
+                return Num(t if t is not None else z3.IntVal(0))
+            items.append((z3.IntVal(len(p_.items)), all(x.is_int for x in p_.items), at))
+        else:
+            raise Unsupported("np.concatenate part %r" % (p_,))
+    allint = all(i for _, i, _ in items)
+    total = z3.IntVal(0)
+    for n_, _, _ in items:
+        total = total + n_
+
+    def elem(k):
+        off = z3.IntVal(0)
+        t = None
+        branches = []
+        for n_, isint, f in items:
+            v = f(k - off)
+            branches.append((k < off + n_, v.t if (allint or not v.is_int) else v.real()))
+            off = off + n_
+        t = branches[-1][1]
+        for c, v in reversed(branches[:-1]):
+            t = z3.If(c, v, t)
+        return Num(t)
+    if not items:
+        raise Unsupported("np.concatenate of nothing")
+    return Seq.from_fn(z3.simplify(total), INT if allint else REAL, elem)
+
+
+@lib("numpy.unique")
+def lib_unique(ev, args, kw, st, node):
+    """np.unique(a): the strictly increasing array of the distinct values of a; ghost maps: U[j] = an index of a holding result[j],
+    V[i] = the position of a[i] in the result.  [A]"""
+    v = args[0]
+    if not isinstance(v, Seq) or v.esh.kind not in ("int", "real") or kw or len(args) != 1:
+        raise Unsupported("np.unique of %r" % (v,))
+    facts = []
+    R = fresh(Sh("seq", [v.esh]), "unique", facts, "array")
+    U = z3.Array(fresh_name("uniqsrc"), z3.IntSort(), z3.IntSort())
+    V = z3.Array(fresh_name("uniqpos"), z3.IntSort(), z3.IntSort())
+    j, a_, b_, i = z3.Int(fresh_name("j")), z3.Int(fresh_name("a")), z3.Int(fresh_name("b")), z3.Int(fresh_name("i"))
+    rt = lambda k: as_num(R.at(k)).t
+    vt = lambda k: as_num(v.at(k)).t
+    facts.append(R.n <= v.n)
+    facts.append(z3.ForAll([a_, b_], z3.Implies(z3.And(0 <= a_, a_ < b_, b_ < R.n), rt(a_) < rt(b_))))
+    facts.append(z3.ForAll([j], z3.Implies(z3.And(j >= 0, j < R.n), z3.And(U[j] >= 0, U[j] < v.n, rt(j) == vt(U[j])))))
+    facts.append(z3.ForAll([i], z3.Implies(z3.And(i >= 0, i < v.n), z3.And(V[i] >= 0, V[i] < R.n, rt(V[i]) == vt(i)))))
+    st.pc.extend(facts)
+    st.env["_last_unique_src"] = Seq(R.n, z3.IntVal(0), [U], INT, "array")
+    st.env["_last_unique_pos"] = Seq(v.n, z3.IntVal(0), [V], INT, "array")
+    return R
 
 
 @lib("numpy.empty_like")
